@@ -217,7 +217,12 @@ impl Monitor for C11 {
         if name.starts_with("set_reward_emissions") && !name.contains("super") {
             let idx = obs.ix.data[8] as usize;
             let e = u128::from_le_bytes(obs.ix.data[9..25].try_into().unwrap());
-            let vault = obs.ix.key("reward_vault");
+            // the vault that counts is the one recorded for the reward, whatever account the instruction names
+            let named = obs.ix.key("reward_vault");
+            let vault = obs.pre.data(&obs.ix.key("whirlpool")).and_then(codec::Pool::decode).and_then(|p| p.reward_infos.get(idx).map(|r| r.vault)).unwrap_or(named);
+            if named != vault {
+                fail(acc, "emissions_judged_on_another_account", format!("reward {idx}: the instruction names {named} as reward vault, the reward's vault is {vault}"));
+            }
             let need = (bu(86_400) * bu(e)) >> 64;
             acc.count("emission_changes");
             if BigUint::from(bal(&obs.pre, &vault)) < need {
